@@ -7,7 +7,7 @@ import roles
 
 def holds_writer_types(ty):
     """does a value of this type own a response writer of the connection's writer chain?"""
-    return ("request::Request" in ty or "util::sequential::SequentialWriter<" in ty
+    return (re.search(r"request::Request\b(?!CreationError)", ty) is not None or "util::sequential::SequentialWriter<" in ty
             or re.search(r"Box<dyn std::io::Write", ty) is not None)
 
 
@@ -22,18 +22,24 @@ def own_deadlock_sites(ctx, rule, fns=None):
     cc_read = roles.inherent(facts, CC, "read")
     n_sites = 0
     for f in (fns or [cc_next, cc_read]):
-        inst = facts.mono_instance(f.id)
+        inst = None if getattr(f, "is_inlined", False) else facts.mono_instance(f.id)
         IN = maybe_init(f)
         VF = variant_facts(f)
         import pathsim
-        PS = pathsim.PathSim(f)
+        PS_ = []
+        def PS():
+            if not PS_:
+                PS_.append(pathsim.PathSim(f))
+            return PS_[0]
         ctx.touch(f)
         ordinal = {}
         sites = [(bb, t) for bb, t in f.calls()] + [(bb, t) for bb, t in f.drops()]
         for bb, t in sorted(sites, key=lambda x: x[0]):
             if f.blocks[bb]["cleanup"]:
                 continue
-            eff = facts.call_effects(inst, bb)
+            if f.blocks[bb].get("synthetic"):
+                continue
+            eff = facts.effects_at(f, bb, inst)
             ctx.call_sites += 1
             if "WAIT-TURN-W" not in eff:
                 continue
@@ -62,7 +68,7 @@ def own_deadlock_sites(ctx, rule, fns=None):
                         continue
                 # path-sensitive: on every variant-consistent path reaching this site the enum is in a
                 # variant whose payload owns no writer (e.g. the return place already holds `Err(..)`)
-                sts = PS.states_before_term(bb)
+                sts = PS().states_before_term(bb)
                 vs = {s_.variant((l,)) for s_ in sts}
                 if sts and None not in vs:
                     pay = [variant_payload_types(facts, ty, v_) for v_ in vs]
